@@ -225,6 +225,10 @@ enum Kind {
     BinZ, // as Bin / Cnt / Cat, with a STRUCTURAL ZERO: feature 0 is never on (count 0; category 2
     CntZ, // never seen) within the first class.  The data are finite; a naive-Bayes model fitted
     CatZ, // without smoothing (alpha = 0) then legitimately stores ln(0) = -inf
+    RegFlat, // as Reg, but the target is nearly constant (two values 1/16 apart): an eps-tube wider
+             // than the spread of y leaves an SVR without any support vector
+    Cls1, // a single class
+    Tiny, // unsupervised, two or three distinct points
     Blob, // unsupervised: a few well separated integer clusters + an outlier
 }
 
@@ -276,10 +280,10 @@ fn classes_ok(x: &[Vec<f64>], y: &[f64], k: usize, labels: &[f64], m: usize, nee
 fn gen_data(kind: Kind, rng: &mut StdRng, p_fixed: Option<usize>) -> Data {
     loop {
         let ns = [8usize, 9, 11, 12, 16, 16, 20, 24];
-        let n = ns[rng.gen_range(0..ns.len())];
+        let n = if kind == Kind::Tiny { rng.gen_range(2..=3) } else { ns[rng.gen_range(0..ns.len())] };
         let p = p_fixed.unwrap_or_else(|| match kind {
             Kind::Bin | Kind::Cnt | Kind::Cat | Kind::BinZ | Kind::CntZ | Kind::CatZ => rng.gen_range(2..=4),
-            Kind::Blob => rng.gen_range(2..=3),
+            Kind::Blob | Kind::Tiny => rng.gen_range(2..=3),
             _ => rng.gen_range(1..=4),
         });
         let nq = 6;
@@ -319,7 +323,7 @@ fn gen_data(kind: Kind, rng: &mut StdRng, p_fixed: Option<usize>) -> Data {
         // domain restrictions of the property (finite, non-degenerate data); degenerate
         // neighbour-search inputs (one point, all points identical) are out of scope here
         match kind {
-            Kind::Reg | Kind::Cls2 | Kind::Cls3 | Kind::Blob => {
+            Kind::Reg | Kind::RegFlat | Kind::Cls1 | Kind::Cls2 | Kind::Cls3 | Kind::Blob | Kind::Tiny => {
                 if !distinct_rows(&x) {
                     continue;
                 }
@@ -331,10 +335,10 @@ fn gen_data(kind: Kind, rng: &mut StdRng, p_fixed: Option<usize>) -> Data {
             Kind::Cat | Kind::CatZ => 3,
             _ => 3,
         };
-        if (0..p).any(|j| col_distinct(&x, j) < need) {
+        if kind != Kind::Tiny && (0..p).any(|j| col_distinct(&x, j) < need) {
             continue;
         }
-        if matches!(kind, Kind::Reg) && n < p + 4 {
+        if matches!(kind, Kind::Reg | Kind::RegFlat) && n < p + 4 {
             continue;
         }
         // targets
@@ -354,9 +358,15 @@ fn gen_data(kind: Kind, rng: &mut StdRng, p_fixed: Option<usize>) -> Data {
                     continue;
                 }
             }
-            Kind::Blob => {}
+            Kind::RegFlat => {
+                for i in 0..n {
+                    y[i] = 5.0 + if i % 2 == 0 { 0.0 } else { 0.0625 };
+                }
+            }
+            Kind::Blob | Kind::Tiny => {}
             _ => {
                 let k = match kind {
+                    Kind::Cls1 => 1,
                     Kind::Cls2 => 2,
                     Kind::Cls3 => 3,
                     _ => rng.gen_range(2..=3),
@@ -372,7 +382,7 @@ fn gen_data(kind: Kind, rng: &mut StdRng, p_fixed: Option<usize>) -> Data {
                     y[i] = labels[(r * k / n).min(k - 1)];
                 }
                 sc.clear();
-                let need_var = matches!(kind, Kind::Cls2 | Kind::Cls3);
+                let need_var = matches!(kind, Kind::Cls1 | Kind::Cls2 | Kind::Cls3);
                 if !classes_ok(&x, &y, k, &labels, 3, need_var) {
                     continue;
                 }
@@ -398,13 +408,32 @@ fn shifted(d: &Data, c: f64, dy: f64, targets_too: bool) -> Data {
     let x = d.x.iter().map(|r| r.iter().map(|v| v + c).collect()).collect();
     let y = if targets_too {
         match d.kind {
-            Kind::Reg => d.y.iter().map(|v| v + dy).collect(),
-            Kind::Blob => d.y.clone(),
+            Kind::Reg | Kind::RegFlat => d.y.iter().map(|v| v + dy).collect(),
+            Kind::Blob | Kind::Tiny => d.y.clone(),
             _ => d.y.iter().map(|v| v + 1.0).collect(),
         }
     } else {
         d.y.clone()
     };
+    Data { kind: d.kind, x, y, q: d.q.clone() }
+}
+
+/// the first ~3/4 of the rows (and targets): a strict PREFIX of the training set
+fn prefix_of(d: &Data) -> Data {
+    let n = d.x.len();
+    let m = std::cmp::max(2, (3 * n) / 4).min(n - 1);
+    Data { kind: d.kind, x: d.x[..m].to_vec(), y: if d.y.is_empty() { vec![] } else { d.y[..m].to_vec() }, q: d.q.clone() }
+}
+
+/// the training set followed by the rows (and targets) of another set: a strict EXTENSION
+fn extension_of(d: &Data, more: &Data) -> Data {
+    let k = std::cmp::max(1, more.x.len() / 3);
+    let mut x = d.x.clone();
+    x.extend_from_slice(&more.x[..k]);
+    let mut y = d.y.clone();
+    if !d.y.is_empty() {
+        y.extend_from_slice(&more.y[..k]);
+    }
     Data { kind: d.kind, x, y, q: d.q.clone() }
 }
 
@@ -456,6 +485,9 @@ struct Cx {
     out: Out,
     run: i64,
     skipped: usize,
+    /// hand-made data sets the NEXT call of `drive` fits before its random ones (so that a
+    /// known input class is met on every seed)
+    fixed: Vec<Data>,
 }
 
 fn status3<A, B>(r: &Result<Result<A, B>, String>) -> &'static str {
@@ -581,6 +613,16 @@ where
             cx.out.emit(json!({"run": run, "ev": "Eq", "kind": alt.role, "fmt": alt.how,
                 "status": if e.is_ok() { "ok" } else { "panic" }, "result": e.unwrap_or(false)}));
         }
+        // the same comparison in the other direction (other == original)
+        if let (Ok(Ok(b)), Some(f), true) = (&alt.obj, eq, alt.role == "other" && alt.how != "rowsonly") {
+            let how_rev = match alt.how { "indep" => "indep-rev", "shift" => "shift-rev", "prefix" => "prefix-rev", "extension" => "extension-rev", _ => "other-rev" };
+            cx.out.emit(json!({"run": run, "ev": "Alt", "role": alt.role, "how": how_rev, "status": "ok",
+                "n": alt.data.x.len(), "xd": dig_rows(&alt.data.x), "yd": dig_rows(&[alt.data.y.clone()]),
+                "obs": obs_value(&ob, s)}));
+            let e = guard(|| f(b, a));
+            cx.out.emit(json!({"run": run, "ev": "Eq", "kind": alt.role, "fmt": how_rev,
+                "status": if e.is_ok() { "ok" } else { "panic" }, "result": e.unwrap_or(false)}));
+        }
     }
     cx.out.emit(json!({"run": run, "ev": "End"}));
 }
@@ -594,8 +636,9 @@ where
     P: Into<Parts>,
 {
     let mut rng = rng(1900 + stream);
-    for _ in 0..reps {
-        let d = gen_data(kind, &mut rng, p_fixed);
+    let fixed: Vec<Data> = std::mem::take(&mut cx.fixed);
+    for rep in 0..reps + fixed.len() {
+        let d = if rep < fixed.len() { fixed[rep].clone() } else { gen_data(kind, &mut rng, p_fixed) };
         let a = match guard(|| fit(&d)) {
             Ok(Ok(a)) => a,
             _ => {
@@ -614,6 +657,15 @@ where
             o
         };
         let obj = guard(|| fit(&ind));
+        // a strict prefix and a strict extension of the training set (rows and targets)
+        if d.x.len() >= 4 {
+            let pre = prefix_of(&d);
+            let o = guard(|| fit(&pre));
+            alts.push(Alt { role: "other", how: "prefix", data: pre, obj: o });
+        }
+        let ext = extension_of(&d, &ind);
+        let o = guard(|| fit(&ext));
+        alts.push(Alt { role: "other", how: "extension", data: ext, obj: o });
         alts.push(Alt { role: "other", how: "indep", data: ind, obj });
         if !matches!(kind, Kind::Bin | Kind::Cat | Kind::BinZ | Kind::CatZ | Kind::CntZ) {
             let c = [2.0, 3.0, -4.0, 5.0][rng.gen_range(0..4)];
@@ -714,7 +766,7 @@ fn kernel_obs<K: Kernel<f64, Vec<f64>>>(k: &K, d: &Data) -> Result<ObsB, Failed>
 
 fn gen_models(path: &str) {
     let reps = if thorough() { 400 } else { 25 };
-    let mut cx = Cx { out: Out::create(path), run: 0, skipped: 0 };
+    let mut cx = Cx { out: Out::create(path), run: 0, skipped: 0, fixed: vec![] };
     let cx = &mut cx;
     let mut st = 0u64;
     let mut next = || {
@@ -855,6 +907,12 @@ fn gen_models(path: &str) {
             ("n_features", Ok(counts(&[o.n_features()]))), ("feature_count", Ok(counts2(o.feature_count()))),
             ("feature_log_prob", Ok(vals2(o.feature_log_prob())))] },
         Some(|a, b| a == b));
+    // met on every seed: the first class has NO counts at all, so without smoothing its
+    // log-probabilities are ln(0/0) = NaN (and the second class never shows feature ... -> -inf)
+    cx.fixed = vec![Data { kind: Kind::CntZ,
+        x: vec![vec![0., 0.], vec![0., 0.], vec![0., 0.], vec![1., 2.], vec![2., 1.], vec![3., 1.], vec![0., 2.], vec![1., 0.]],
+        y: vec![0., 0., 0., 1., 1., 1., 1., 1.],
+        q: vec![vec![1., 0.], vec![0., 2.], vec![2., 2.], vec![0., 0.], vec![1., 1.], vec![3., 0.]] }];
     drive(cx, next(), reps, m("MultinomialNB", "alpha=0", true, true), Kind::CntZ, None,
         |d: &Data| MultinomialNB::fit(&mat::<f64>(&d.x), &d.y, MultinomialNBParameters::default().with_alpha(0.0)),
         |o: &MultinomialNB<f64, M64>, d: &Data| -> PartList { vec![("predict", gp(|| o.predict(&mat(&d.q)).map(ObsB::disc))),
@@ -932,6 +990,95 @@ fn gen_models(path: &str) {
             |o: &SVD<f64, M64>, d: &Data| -> PartList { vec![("transform", o.transform(&mat(&d.q)).map(|t| mat_obs(&t))), ("components", Ok(mat_obs(o.components())))] },
             Some(|a, b| a == b));
     }
+
+    // ---- degenerate but valid fitted states ---------------------------------------------------
+    let dreps = std::cmp::max(3, reps / 3);
+    // an SVR whose eps-tube swallows every target: no support vectors at all
+    drive(cx, next(), dreps, m("SVR", "linear-no-sv", true, true), Kind::RegFlat, None,
+        |d: &Data| SVR::fit(&mat::<f64>(&d.x), &d.y, SVRParameters::default().with_eps(0.5).with_c(1.0)),
+        |o: &SVR<f64, M64, LinearKernel>, d: &Data| o.predict(&mat(&d.q)).map(ObsB::cont), Some(|a, b| a == b));
+    drive(cx, next(), dreps, m("SVR", "rbf-no-sv", true, true), Kind::RegFlat, None,
+        |d: &Data| SVR::fit(&mat::<f64>(&d.x), &d.y, SVRParameters::default().with_eps(0.5).with_c(1.0).with_kernel(Kernels::rbf(0.125))),
+        |o: &SVR<f64, M64, RBFKernel<f64>>, d: &Data| o.predict(&mat(&d.q)).map(ObsB::cont), Some(|a, b| a == b));
+    drive(cx, next(), dreps, m("SVC", "linear-tiny-c", false, true), Kind::Cls2, None,
+        |d: &Data| SVC::fit(&mat::<f64>(&d.x), &d.y, SVCParameters::default().with_c(1e-6)),
+        svc_obs::<LinearKernel>, Some(|a, b| a == b));
+    // trees that are a single leaf; forests of one tree
+    drive(cx, next(), dreps, m("DecisionTreeClassifier", "single-leaf", true, true), Kind::Cls3, None,
+        |d: &Data| DecisionTreeClassifier::fit(&mat::<f64>(&d.x), &d.y,
+            DecisionTreeClassifierParameters { criterion: SplitCriterion::Gini, max_depth: None, min_samples_leaf: 1, min_samples_split: 1000 }),
+        |o: &DecisionTreeClassifier<f64>, d: &Data| o.predict(&mat::<f64>(&d.q)).map(ObsB::disc),
+        Some(|a, b| a == b));
+    drive(cx, next(), dreps, m("DecisionTreeRegressor", "single-leaf", true, true), Kind::Reg, None,
+        |d: &Data| DecisionTreeRegressor::fit(&mat::<f64>(&d.x), &d.y, DecisionTreeRegressorParameters { max_depth: None, min_samples_leaf: 1, min_samples_split: 1000 }),
+        |o: &DecisionTreeRegressor<f64>, d: &Data| o.predict(&mat::<f64>(&d.q)).map(ObsB::cont),
+        Some(|a, b| a == b));
+    drive(cx, next(), dreps, m("RandomForestClassifier", "one-tree-keep-samples", true, true), Kind::Cls2, None,
+        |d: &Data| RandomForestClassifier::fit(&mat::<f64>(&d.x), &d.y,
+            RandomForestClassifierParameters { criterion: SplitCriterion::Gini, max_depth: Some(2), min_samples_leaf: 1, min_samples_split: 2,
+                n_trees: 1, m: None, keep_samples: true, seed: 5 }),
+        |o: &RandomForestClassifier<f64>, d: &Data| -> PartList { vec![("predict", o.predict(&mat::<f64>(&d.q)).map(ObsB::disc)),
+            ("predict_oob", o.predict_oob(&mat::<f64>(&d.x)).map(ObsB::disc))] },
+        Some(|a, b| a == b));
+    drive(cx, next(), dreps, m("RandomForestRegressor", "one-tree-keep-samples", true, true), Kind::Reg, None,
+        |d: &Data| RandomForestRegressor::fit(&mat::<f64>(&d.x), &d.y,
+            RandomForestRegressorParameters { max_depth: Some(2), min_samples_leaf: 1, min_samples_split: 2,
+                n_trees: 1, m: None, keep_samples: true, seed: 5 }),
+        |o: &RandomForestRegressor<f64>, d: &Data| -> PartList { vec![("predict", o.predict(&mat::<f64>(&d.q)).map(ObsB::cont)),
+            ("predict_oob", o.predict_oob(&mat::<f64>(&d.x)).map(ObsB::cont))] },
+        Some(|a, b| a == b));
+    // a single class
+    drive(cx, next(), dreps, m("GaussianNB", "single-class", true, true), Kind::Cls1, None,
+        |d: &Data| GaussianNB::fit(&mat::<f64>(&d.x), &d.y, Default::default()),
+        |o: &GaussianNB<f64, M64>, d: &Data| -> PartList { vec![("predict", gp(|| o.predict(&mat(&d.q)).map(ObsB::disc))),
+            ("classes", Ok(ObsB::disc(o.classes().clone()))), ("class_priors", Ok(ObsB::cont(o.class_priors().clone()))),
+            ("theta", Ok(vals2(o.theta()))), ("var", Ok(vals2(o.var())))] },
+        Some(|a, b| a == b));
+    drive(cx, next(), dreps, m("DecisionTreeClassifier", "single-class", true, true), Kind::Cls1, None,
+        |d: &Data| DecisionTreeClassifier::fit(&mat::<f64>(&d.x), &d.y, Default::default()),
+        |o: &DecisionTreeClassifier<f64>, d: &Data| o.predict(&mat::<f64>(&d.q)).map(ObsB::disc),
+        Some(|a, b| a == b));
+    drive(cx, next(), dreps, m("KNNClassifier", "single-class", true, true), Kind::Cls1, None,
+        |d: &Data| KNNClassifier::fit(&mat::<f64>(&d.x), &d.y, KNNClassifierParameters::default().with_k(3)),
+        |o: &KNNClassifier<f64, Euclidian>, d: &Data| o.predict(&mat::<f64>(&d.q)).map(ObsB::disc),
+        Some(|a, b| a == b));
+    // clusterings: more centroids than clusters, nothing but noise, one cluster for everything
+    drive(cx, next(), dreps, m("KMeans", "k=5", false, false), Kind::Blob, None,
+        |d: &Data| KMeans::fit(&mat::<f64>(&d.x), KMeansParameters::default().with_k(5)),
+        |o: &KMeans<f64>, d: &Data| o.predict(&mat::<f64>(&d.q)).map(ObsB::disc),
+        Some(|a, b| a == b));
+    drive(cx, next(), dreps, m("DBSCAN", "all-noise", true, false), Kind::Blob, None,
+        |d: &Data| DBSCAN::fit(&mat::<f64>(&d.x), DBSCANParameters::default().with_eps(0.25).with_min_samples(5)),
+        |o: &DBSCAN<f64, Euclidian>, d: &Data| o.predict(&mat::<f64>(&d.q)).map(ObsB::disc),
+        Some(|a, b| a == b));
+    drive(cx, next(), dreps, m("DBSCAN", "one-cluster", true, false), Kind::Blob, None,
+        |d: &Data| DBSCAN::fit(&mat::<f64>(&d.x), DBSCANParameters::default().with_eps(200.0).with_min_samples(2).with_algorithm(KNNAlgorithmName::LinearSearch)),
+        |o: &DBSCAN<f64, Euclidian>, d: &Data| o.predict(&mat::<f64>(&d.q)).map(ObsB::disc),
+        Some(|a, b| a == b));
+    // all components kept (k = p)
+    drive(cx, next(), dreps, m("PCA", "cov-k=p=2", true, false), Kind::Blob, Some(2),
+        |d: &Data| PCA::fit(&mat::<f64>(&d.x), PCAParameters::default().with_n_components(2)),
+        |o: &PCA<f64, M64>, d: &Data| -> PartList { vec![("transform", o.transform(&mat(&d.q)).map(|t| mat_obs(&t))), ("components", Ok(mat_obs(o.components())))] },
+        Some(|a, b| a == b));
+    drive(cx, next(), dreps, m("SVD", "k=p=2", true, false), Kind::Blob, Some(2),
+        |d: &Data| SVD::fit(&mat::<f64>(&d.x), SVDParameters::default().with_n_components(2)),
+        |o: &SVD<f64, M64>, d: &Data| -> PartList { vec![("transform", o.transform(&mat(&d.q)).map(|t| mat_obs(&t))), ("components", Ok(mat_obs(o.components())))] },
+        Some(|a, b| a == b));
+    // search structures over two or three points
+    drive(cx, next(), dreps, m("CoverTree", "tiny", true, false), Kind::Tiny, None,
+        |d: &Data| CoverTree::new(d.x.clone(), Distances::euclidian()),
+        |o: &CoverTree<Vec<f64>, f64, Euclidian>, d: &Data| search_obs(d, |q, radius| {
+            let r = if radius { o.find_radius(q, 3.0)? } else { o.find(q, 1)? };
+            Ok(r.into_iter().map(|(i, dist, _)| (i, dist)).collect())
+        }),
+        Some(|a, b| a == b));
+    drive(cx, next(), dreps, m("LinearKNNSearch", "tiny", true, false), Kind::Tiny, None,
+        |d: &Data| LinearKNNSearch::new(d.x.clone(), Distances::euclidian()),
+        |o: &LinearKNNSearch<Vec<f64>, f64, Euclidian>, d: &Data| search_obs(d, |q, radius| {
+            let r = if radius { o.find_radius(q, 3.0)? } else { o.find(q, 1)? };
+            Ok(r.into_iter().map(|(i, dist, _)| (i, dist)).collect())
+        }),
+        Some(|a, b| a == b));
 
     // ---- neighbour-search structures -----------------------------------------------------------
     for kind in [Kind::Blob, Kind::Reg] {
